@@ -150,4 +150,13 @@ CLAIMED["C15"] = {
   "note": "The step from the library source to the transliteration is by line-for-line quotation plus behavioural correspondence, not by proof.",
   "technique": "Coq proof (library transliteration = Go specification, all inputs) + differential runs against Go's strings and the compiled library",
 }
+CLAIMED["C10"] = {
+  "text": "Theorems: every name the Bash converter creates lies in a decidable reserved class, mangling is injective, helpers are distinct, so an identifier outside the class "
+          "is never captured; the front end accepts names inside the class and capture changes behaviour (refuted with a computed witness; known findings by class). "
+          "Generated programs are renamed into ordinary and into every class of reserved / shell names and both versions are executed; the renamer itself is checked by "
+          "the reference semantics.",
+  "ref": "DESIGN.md section 5/C10",
+  "note": "PARTIAL: renaming-commutation of the whole pipeline is not proved; shell builtins/keywords/environment names and the Batch case folding are outside the model.",
+  "technique": "Coq proof (reserved-name class, non-capture) + renamed-program runs through the implementation under /bin/bash",
+}
 NOT_CLAIMED = {}
